@@ -109,3 +109,39 @@ Definition gconj : Tenalg.GI -> Tenalg.GI := Tenalg.rconj Tenalg.GR.
 Definition tconj {F : Type} (cj : F -> F) (t : tensor F) : tensor F := mk (shape t) (map cj (data t)).
 Definition tucker_to_tensor_conj {F : Type} (Op : fops F) (cj : F -> F) (core : tensor F) (fs : list (tensor F)) (skip : option nat) (tr : bool) :=
   tucker_to_tensor Op core (if tr then map (tconj cj) fs else fs) skip tr.
+
+(* ------------------------------------------------------------------ (e) _validate_parafac2_tensor with the HERMITIAN orthonormality test *)
+(* the code tests dot(transpose(P), P) = I (Model/Factorized.orthonormalb): on complex projections that is not "orthonormal columns".
+   validate_parafac2_h tests P^H P = I = dot(conj(transpose(P)), P): the candidate repair build/fix_candidates/C03_parafac2_complex_projections *)
+Section P2H.
+Context {F : Type} (Op : fops F) (cj : F -> F).
+Definition orthonormalb_h (P : tensor F) (rank : nat) : bool :=
+  forallb (fun r => forallb (fun s =>
+     feqb Op (fsumn Op (nrows P) (fun i => fmul Op (cj (get2 Op P i r)) (get2 Op P i s))) (if r =? s then f1 Op else f0 Op))
+     (seq 0 rank)) (seq 0 rank).
+Fixpoint p2_proj_shapes_h (rank K : nat) (ps : list (tensor F)) : res (list (list nat)) :=
+  match ps with
+  | [] => Ok []
+  | P :: r => match shape P with
+              | [j; c] => if (c =? rank) && orthonormalb_h P rank
+                          then rbind (p2_proj_shapes_h rank K r) (fun l => Ok ([j; K] :: l)) else Err
+              | _ => Err
+              end
+  end.
+Definition validate_parafac2_h (w : option (tensor F)) (fs ps : list (tensor F)) : res (list (list nat) * nat) :=
+  match fs with
+  | [A; B; C] =>
+    match shape A with
+    | nI :: rank :: _ =>
+      if negb (length ps =? nI) then Err
+      else match shape C with
+           | K :: _ =>
+             rbind (p2_proj_shapes_h rank K ps) (fun shp =>
+               if cols_are rank B && cols_are rank C && p2_weights_ok w rank then Ok (shp, rank) else Err)
+           | [] => Err
+           end
+    | _ => Err
+    end
+  | _ => Err
+  end.
+End P2H.
